@@ -253,11 +253,26 @@ class Sim:
 
         async def do():
             try:
+                # the application may have used the PUBLIC API every overlay inherits (TaskManager, its request cache)
+                # before it unloads: the unload still has to do all of its work
+                pre = getattr(self, "pre_history", None)
+                rc_pre = getattr(ov, "request_cache", None)
+                if pre == "shutdown_task_manager":
+                    await ov.shutdown_task_manager()
+                elif pre == "cancel_all_pending_tasks":
+                    ov.cancel_all_pending_tasks()
+                    await asyncio.sleep(0)
+                elif pre == "request_cache.shutdown" and rc_pre is not None:
+                    await rc_pre.shutdown()
+                elif pre == "unload-twice":
+                    pass
                 svc = getattr(self.target, "service", None)
                 if svc is not None:
                     await svc.unload_overlay(ov)      # the way an application unloads an overlay of a running service
                 else:
                     await ov.unload()
+                if getattr(self, "pre_history", None) == "unload-twice":
+                    await ov.unload()                 # a second unload has to be harmless
             except Exception as e:  # noqa: BLE001
                 self.unload_error = f"{type(e).__name__}: {e}"
             except asyncio.CancelledError:
@@ -1127,6 +1142,7 @@ async def _scenario_main(sim, cls, spec, rng, dry):
     wire_bootstrappers(nodes)
     sim.socket_baseline = count_socket_fds()
     sim.silence = spec.get("silence", "none")
+    sim.pre_history = spec.get("pre") or None
     sim.self_unload = spec.get("self_unload") or False
     if sim.self_unload is True:
         sim.self_unload = "own-task"
@@ -2297,7 +2313,12 @@ def run_one_scenario(ctx: Ctx, spec):
     if "self_unload" not in spec and ctx.replay_input is None:
         r = ctx.rng.random()
         spec = {**spec, "self_unload": "own-task" if r < 0.06 else "periodic" if r < 0.13 else "cache-task" if r < 0.18 else False}
+    if "pre" not in spec and ctx.replay_input is None:
+        r = ctx.rng.random()
+        spec = {**spec, "pre": "shutdown_task_manager" if r < 0.07 else "cancel_all_pending_tasks" if r < 0.11
+                else "request_cache.shutdown" if r < 0.15 else "unload-twice" if r < 0.18 else None}
     ctx.count("unload-requested-from:" + (str(spec.get("self_unload")) if spec.get("self_unload") else "outside"))
+    ctx.count("history-before-unload:" + (spec.get("pre") or "none"))
     viol, st = run_scenario(spec)
     trig = spec["trigger"]
     ctx.count(f"scenario:{spec['cls']}")
@@ -2316,7 +2337,7 @@ def run_one_scenario(ctx: Ctx, spec):
                                      "1-9" if st["pre_sent"] + st["pre_recv"] < 10 else "10+"))
     nontrivial = (st["pre_sent"] + st["pre_recv"] > 0) or st["pre_tasks"] > 0      # RULE: traffic or a protocol task pending
     ctx.case((spec["cls"], spec["stack"], spec["family"], spec["target"], tuple(trig), spec["hops"], spec.get("silence"),
-              str(spec.get("self_unload") or "")), nontrivial)
+              str(spec.get("self_unload") or ""), str(spec.get("pre") or "")), nontrivial)
     for sig, what in viol:
         ctx.count("violation:" + sig)
         ctx.oracle_fail(sig, f"[{spec['cls']} on {spec['stack']} endpoint, scenario {spec['family']}, node {spec['target']}, "
